@@ -272,7 +272,6 @@ Lemma useds_app : forall a b, useds (a ++ b) = useds a ++ useds b.
 Proof. intros. unfold useds. apply flat_map_app. Qed.
 
 (* from here on: functions without *args (the zip branch of the positional loop is not taken) *)
-Variable veq : value -> value -> bool.
 Hypothesis NV : s_varpos sg = false.
 
 Lemma bind_partial_nv : forall args bound star, bind_partial value sg args = Ok (bound, star) -> star = [].
@@ -281,7 +280,7 @@ Proof.
 Qed.
 
 Theorem wrapper_content_ref : forall c,
-  wrapper_content value is_none veq rcfg rr sg env dc c = wc_ref c.
+  wrapper_content value is_none rcfg rr sg env dc c = wc_ref c.
 Proof.
   intro c. unfold wrapper_content, wc_ref. cbn [wc_phases reference_cfg run_phases andb].
   destruct (d_ignore_input dc) eqn:Ig; cbn [andb run_phase fst snd].
